@@ -8,7 +8,7 @@ from ..rules_own import own_rules
 
 from ..cfg import cfg_of, membership
 from ..model import norm, parent, walk_own, walk_with_nested_exprs
-from ..rules_store import instance_state, bparam, is_param_ref, memory_containers
+from ..rules_store import instance_state, bparam, ddl_facts, is_param_ref, memory_containers
 from ..sqlmodel import local_defs, peewee_chains, single_def, sql_sites
 
 ME = "aw_datastore/storages/memory.py"
@@ -490,6 +490,8 @@ def check(prog, rep):
     guarded_updates(prog, rep)
     delete_coverage(prog, rep)
     caches_follow(prog, rep)
+    # a keyed map: the key column is unique and compared exactly
+    ddl_facts(prog, rep)
     wrapper_rules(prog, rep)
     container_eviction(prog, rep)
     not_found(prog, rep)
@@ -500,6 +502,7 @@ def check(prog, rep):
 
 
 VARIANTS = [
+    ("B bucket ids compared case-insensitively by the table (COLLATE NOCASE)", SQ, "        id TEXT UNIQUE NOT NULL,\n        name TEXT,", "        id TEXT UNIQUE NOT NULL COLLATE NOCASE,\n        name TEXT,", "SCHEMA"),
     ("B memory create_bucket keeps the caller's nested data", ME, '            "data": copy.deepcopy(data) if data else {},', '            "data": dict(data or {}),', "OWN-IN"),
     ("B failed delete rolls the open transaction back", SQ, "        self.commit()\n        if cursor.rowcount != 1:\n            raise ValueError(\"Bucket did not exist, could not delete\")", "        if cursor.rowcount != 1:\n            self.conn.rollback()\n            raise ValueError(\"Bucket did not exist, could not delete\")\n        self.commit()", "NO-ROLLBACK"),
     ("B handle cached before the existence check", DS, "            if bucket_id in self.buckets():\n                bucket = Bucket(self, bucket_id)\n                self.bucket_instances[bucket_id] = bucket\n            else:", "            self.bucket_instances[bucket_id] = Bucket(self, bucket_id)\n            if bucket_id not in self.buckets():", "CACHES-ALL"),
